@@ -29,6 +29,15 @@
 (* loss must wake the writer at either point, otherwise client.Start never  *)
 (* returns, the dead client is never removed from the table and the address *)
 (* never heals.                                                             *)
+(* A request that follows a MOVED / ASK redirection runs on the reader       *)
+(* goroutine of the redirecting backend's client (handleRedirection ->      *)
+(* MakeRequestToHost -> getClient -> createClient); when the target has no  *)
+(* client that reader needs clientsMu.  resetAllClients stops every old     *)
+(* client and waits for its reader: it must not hold clientsMu meanwhile.   *)
+(*   ResetStopsUnderLock - resetAllClients keeps clientsMu while it stops   *)
+(*                    the old clients (`defer Unlock()`): FALSE in the code; *)
+(*                    TRUE must violate NoStuckReset (reset waits for the   *)
+(*                    reader, the reader waits for the lock)                *)
 (*   AskSelectsQuit - the hand-over of the ASKING placeholder also waits    *)
 (*                    for quit (FALSE: plain channel send, the writer stays *)
 (*                    blocked for ever when the connection is lost)         *)
@@ -42,7 +51,8 @@ CONSTANTS Reqs,           \* request ids (naturals, issued in order)
           MaxStalls,      \* bound on backend stalls (in-flight queue of a connection full)
           MaxAsk,         \* bound on requests that follow an ASK redirection
           FixCallEntry, FixRemoveOwn, FixResetSnapshot,
-          AskSelectsQuit
+          AskSelectsQuit,
+          ResetStopsUnderLock
 
 NoClient == 0
 Pending == MaxClients + 1     \* result of a call that has not finished yet
@@ -70,10 +80,11 @@ VARIABLES
   hand,         \* hand[c]: request the writer of c holds while it waits at a hand-over (0 = none)
   asking,       \* asking[r]: r follows an ASK redirection (the writer sends ASKING in front of it)
   wedged,       \* wedged[c]: connection lost, but the writer never woke up: Start() never returns
-  stalls, asks
+  stalls, asks,
+  mu            \* clientsMu: "free" | "reset" (createClient / removeExitedClient hold it within one step)
 
 pvars == <<full, hand, asking, wedged, stalls, asks>>      \* pipeline part
-vars == <<table, call, gens, callRes, alive, exited, created, up, rq, rqc, outcome, sawDown, next, rst, snap, genDown, faults, pvars>>
+vars == <<table, call, gens, callRes, alive, exited, created, up, rq, rqc, outcome, sawDown, next, rst, snap, genDown, faults, pvars, mu>>
 
 Init ==
   /\ table = NoClient /\ call = 0 /\ gens = 0 /\ callRes = [g \in 1..MaxGens |-> Pending]
@@ -84,7 +95,7 @@ Init ==
   /\ sawDown = [r \in Reqs |-> FALSE]
   /\ next = 1 /\ rst = "idle" /\ snap = NoClient /\ genDown = [g \in 1..MaxGens |-> FALSE] /\ faults = 0
   /\ full = [c \in Clients |-> FALSE] /\ hand = [c \in Clients |-> 0] /\ asking = [r \in Reqs |-> FALSE]
-  /\ wedged = [c \in Clients |-> FALSE] /\ stalls = 0 /\ asks = 0
+  /\ wedged = [c \in Clients |-> FALSE] /\ stalls = 0 /\ asks = 0 /\ mu = "free"
 
 InFlight(r) == rq[r] \notin {"idle", "done"}
 \* every request in flight witnesses a fault
@@ -109,7 +120,7 @@ Issue(r) ==
   /\ sawDown' = [sawDown EXCEPT ![r] = ~up \/ \E c \in Clients : exited[c]]
   /\ \/ UNCHANGED <<asking, asks>>
      \/ asks < MaxAsk /\ asks' = asks + 1 /\ asking' = [asking EXCEPT ![r] = TRUE]
-  /\ UNCHANGED <<table, call, gens, callRes, alive, exited, created, up, rqc, outcome, rst, snap, genDown, faults, full, hand, wedged, stalls>>
+  /\ UNCHANGED <<mu, table, call, gens, callRes, alive, exited, created, up, rqc, outcome, rst, snap, genDown, faults, full, hand, wedged, stalls>>
 
 (* getClient (upstream.go:214-233): hit -> send; miss -> LoadOrStore the call *)
 Lookup(r) ==
@@ -122,7 +133,7 @@ Lookup(r) ==
                    /\ rq' = [rq EXCEPT ![r] = "dial"] /\ rqc' = [rqc EXCEPT ![r] = gens + 1]
               ELSE /\ rq' = [rq EXCEPT ![r] = "waitcall"] /\ rqc' = [rqc EXCEPT ![r] = call]
                    /\ UNCHANGED <<call, gens>>
-  /\ UNCHANGED <<table, callRes, alive, exited, created, up, outcome, sawDown, next, rst, snap, genDown, faults, pvars>>
+  /\ UNCHANGED <<mu, table, callRes, alive, exited, created, up, outcome, sawDown, next, rst, snap, genDown, faults, pvars>>
 
 (* a caller that found an existing call entry waits for it and takes its result; the shared attempt may  *)
 (* have been started while the backend was down (fail fast): that request witnesses the outage too       *)
@@ -132,18 +143,18 @@ WaitCall(r) ==
        THEN /\ outcome' = [outcome EXCEPT ![r] = "err"] /\ rq' = [rq EXCEPT ![r] = "done"] /\ UNCHANGED rqc
        ELSE /\ rqc' = [rqc EXCEPT ![r] = callRes[rqc[r]]] /\ rq' = [rq EXCEPT ![r] = "send"] /\ UNCHANGED outcome
   /\ sawDown' = [sawDown EXCEPT ![r] = @ \/ genDown[rqc[r]]]
-  /\ UNCHANGED <<table, call, gens, callRes, alive, exited, created, up, next, rst, snap, genDown, faults, pvars>>
+  /\ UNCHANGED <<mu, table, call, gens, callRes, alive, exited, created, up, next, rst, snap, genDown, faults, pvars>>
 
 (* the caller that stored the call starts to connect: whether the backend is reachable is decided now,    *)
 (* the attempt finishes later (DialEnd)                                                                    *)
 DialStart(r) ==
-  /\ rq[r] = "dial" /\ rq' = [rq EXCEPT ![r] = "dialing"]
+  /\ rq[r] = "dial" /\ mu = "free" /\ rq' = [rq EXCEPT ![r] = "dialing"]
   /\ genDown' = [genDown EXCEPT ![rqc[r]] = ~up]
-  /\ UNCHANGED <<table, call, gens, callRes, alive, exited, created, up, rqc, outcome, sawDown, next, rst, snap, faults, pvars>>
+  /\ UNCHANGED <<mu, table, call, gens, callRes, alive, exited, created, up, rqc, outcome, sawDown, next, rst, snap, faults, pvars>>
 
 (* createClient (upstream.go:235-270) by the caller that stored the call    *)
 Dial(r) ==
-  /\ rq[r] = "dialing"
+  /\ rq[r] = "dialing" /\ mu = "free"
   /\ IF table # NoClient
        THEN \* somebody registered a client meanwhile
             /\ callRes' = [callRes EXCEPT ![rqc[r]] = table] /\ rqc' = [rqc EXCEPT ![r] = table]
@@ -160,7 +171,7 @@ Dial(r) ==
                    /\ outcome' = [outcome EXCEPT ![r] = "err"] /\ rq' = [rq EXCEPT ![r] = "done"]
                    /\ UNCHANGED <<table, alive, exited, created, rqc>>
   /\ call' = IF FixCallEntry THEN 0 ELSE call
-  /\ UNCHANGED <<gens, up, sawDown, next, rst, snap, genDown, faults, pvars>>
+  /\ UNCHANGED <<mu, gens, up, sawDown, next, rst, snap, genDown, faults, pvars>>
 
 (* client.Send + the round trip: served if the client is alive, answered    *)
 (* with an error by Send / the drain if it has quit.  While the backend     *)
@@ -169,7 +180,7 @@ SendAndReply(r) ==
   /\ rq[r] = "send" /\ ~(alive[rqc[r]] /\ full[rqc[r]])
   /\ outcome' = [outcome EXCEPT ![r] = IF alive[rqc[r]] THEN "ok" ELSE "err"]
   /\ rq' = [rq EXCEPT ![r] = "done"]
-  /\ UNCHANGED <<table, call, gens, callRes, alive, exited, created, up, rqc, sawDown, next, rst, snap, genDown, faults, pvars>>
+  /\ UNCHANGED <<mu, table, call, gens, callRes, alive, exited, created, up, rqc, sawDown, next, rst, snap, genDown, faults, pvars>>
 
 (* loopWrite takes the next request of a stalled connection and waits at the hand-over to the in-flight    *)
 (* queue: with the command written (hand-off of the command), or - for an asking request - with ASKING     *)
@@ -177,20 +188,20 @@ SendAndReply(r) ==
 WriterTake(r) ==
   /\ rq[r] = "send" /\ alive[rqc[r]] /\ full[rqc[r]] /\ hand[rqc[r]] = 0
   /\ hand' = [hand EXCEPT ![rqc[r]] = r] /\ rq' = [rq EXCEPT ![r] = "inhand"]
-  /\ UNCHANGED <<table, call, gens, callRes, alive, exited, created, up, rqc, outcome, sawDown, next, rst, snap, genDown, faults, full, asking, wedged, stalls, asks>>
+  /\ UNCHANGED <<mu, table, call, gens, callRes, alive, exited, created, up, rqc, outcome, sawDown, next, rst, snap, genDown, faults, full, asking, wedged, stalls, asks>>
 
 (* the backend answers again: the hand-over completes *)
 HandOver(r) ==
   /\ rq[r] = "inhand" /\ alive[rqc[r]] /\ ~full[rqc[r]]
   /\ hand' = [hand EXCEPT ![rqc[r]] = 0] /\ rq' = [rq EXCEPT ![r] = "send"]
-  /\ UNCHANGED <<table, call, gens, callRes, alive, exited, created, up, rqc, outcome, sawDown, next, rst, snap, genDown, faults, full, asking, wedged, stalls, asks>>
+  /\ UNCHANGED <<mu, table, call, gens, callRes, alive, exited, created, up, rqc, outcome, sawDown, next, rst, snap, genDown, faults, full, asking, wedged, stalls, asks>>
 
 (* the connection was lost while the writer waited: quit wakes it, the request in hand is answered here *)
 HandQuit(r) ==
   /\ rq[r] = "inhand" /\ ~alive[rqc[r]] /\ ~wedged[rqc[r]]
   /\ hand' = [hand EXCEPT ![rqc[r]] = 0]
   /\ outcome' = [outcome EXCEPT ![r] = "err"] /\ rq' = [rq EXCEPT ![r] = "done"]
-  /\ UNCHANGED <<table, call, gens, callRes, alive, exited, created, up, rqc, sawDown, next, rst, snap, genDown, faults, full, asking, wedged, stalls, asks>>
+  /\ UNCHANGED <<mu, table, call, gens, callRes, alive, exited, created, up, rqc, sawDown, next, rst, snap, genDown, faults, full, asking, wedged, stalls, asks>>
 
 (* environment: the backend stops answering; the traffic of other sessions fills the in-flight queue of   *)
 (* the connection.  Taken while no modelled request is on its way, so that the next request is the one    *)
@@ -199,55 +210,66 @@ Stall(c) ==
   /\ alive[c] /\ table = c /\ ~full[c] /\ stalls < MaxStalls /\ rst = "idle"
   /\ \A r \in Reqs : ~InFlight(r)
   /\ stalls' = stalls + 1 /\ full' = [full EXCEPT ![c] = TRUE]
-  /\ UNCHANGED <<table, call, gens, callRes, alive, exited, created, up, rq, rqc, outcome, sawDown, next, rst, snap, genDown, faults, hand, asking, wedged, asks>>
+  /\ UNCHANGED <<mu, table, call, gens, callRes, alive, exited, created, up, rq, rqc, outcome, sawDown, next, rst, snap, genDown, faults, hand, asking, wedged, asks>>
 Unstall(c) ==
   /\ alive[c] /\ full[c] /\ full' = [full EXCEPT ![c] = FALSE]
-  /\ UNCHANGED <<table, call, gens, callRes, alive, exited, created, up, rq, rqc, outcome, sawDown, next, rst, snap, genDown, faults, hand, asking, wedged, stalls, asks>>
+  /\ UNCHANGED <<mu, table, call, gens, callRes, alive, exited, created, up, rq, rqc, outcome, sawDown, next, rst, snap, genDown, faults, hand, asking, wedged, stalls, asks>>
 
 (* environment: the connection of client c is lost (reset, backend restart) *)
 ConnLost(c) ==
   /\ alive[c] /\ faults < MaxFaults /\ faults' = faults + 1
   /\ Lose({c})
   /\ sawDown' = Witness
-  /\ UNCHANGED <<table, call, gens, callRes, created, up, rq, rqc, outcome, next, rst, snap, genDown, hand, asking, stalls, asks>>
+  /\ UNCHANGED <<mu, table, call, gens, callRes, created, up, rq, rqc, outcome, next, rst, snap, genDown, hand, asking, stalls, asks>>
 
 (* environment: the backend goes down (all its connections are lost) / comes back *)
 BackendDown ==
   /\ up /\ faults < MaxFaults /\ faults' = faults + 1 /\ up' = FALSE
   /\ Lose(Clients)
   /\ sawDown' = Witness
-  /\ UNCHANGED <<table, call, gens, callRes, created, rq, rqc, outcome, next, rst, snap, genDown, hand, asking, stalls, asks>>
+  /\ UNCHANGED <<mu, table, call, gens, callRes, created, rq, rqc, outcome, next, rst, snap, genDown, hand, asking, stalls, asks>>
 BackendUp ==
   /\ ~up /\ up' = TRUE
-  /\ UNCHANGED <<table, call, gens, callRes, alive, exited, created, rq, rqc, outcome, sawDown, next, rst, snap, genDown, faults, pvars>>
+  /\ UNCHANGED <<mu, table, call, gens, callRes, alive, exited, created, rq, rqc, outcome, sawDown, next, rst, snap, genDown, faults, pvars>>
 
 (* the goroutine `c.Start(); u.removeClient(addr)` (upstream.go:263-268)     *)
 RemoveSelf(c) ==
-  /\ exited[c] /\ exited' = [exited EXCEPT ![c] = FALSE]
+  /\ exited[c] /\ mu = "free" /\ exited' = [exited EXCEPT ![c] = FALSE]
   /\ table' = IF FixRemoveOwn /\ table # c THEN table ELSE NoClient
-  /\ UNCHANGED <<call, gens, callRes, alive, created, up, rq, rqc, outcome, sawDown, next, rst, snap, genDown, faults, pvars>>
+  /\ UNCHANGED <<mu, call, gens, callRes, alive, created, up, rq, rqc, outcome, sawDown, next, rst, snap, genDown, faults, pvars>>
 
 (* OnHostReplace -> resetAllClients (upstream.go:290-302): snapshot of the    *)
 (* table, empty the table under the lock, then stop the clients of the      *)
 (* snapshot.  Pinned code takes the snapshot before the lock: two steps.    *)
 ResetSnapshot ==
-  /\ rst = "idle" /\ faults < MaxFaults /\ faults' = faults + 1
+  /\ rst = "idle" /\ mu = "free" /\ faults < MaxFaults /\ faults' = faults + 1
   /\ ~FixResetSnapshot
   /\ rst' = "snap" /\ snap' = table
-  /\ UNCHANGED <<table, call, gens, callRes, alive, exited, created, up, rq, rqc, outcome, sawDown, next, genDown, pvars>>
+  /\ UNCHANGED <<mu, table, call, gens, callRes, alive, exited, created, up, rq, rqc, outcome, sawDown, next, genDown, pvars>>
 
 ResetSwap ==
+  /\ mu = "free"
   /\ \/ rst = "snap" /\ UNCHANGED faults
      \/ rst = "idle" /\ FixResetSnapshot /\ faults < MaxFaults /\ faults' = faults + 1
   /\ LET old == IF rst = "snap" THEN snap ELSE table IN Lose({old} \cap Clients)
-  /\ table' = NoClient /\ rst' = "idle" /\ snap' = NoClient
+  /\ table' = NoClient /\ snap' = NoClient
+  \* the old clients (of every address) are stopped next; the variant keeps clientsMu until they have all stopped
+  /\ IF ResetStopsUnderLock THEN rst' = "stopping" /\ mu' = "reset" ELSE rst' = "idle" /\ UNCHANGED mu
   /\ sawDown' = Witness
   /\ UNCHANGED <<call, gens, callRes, created, up, rq, rqc, outcome, next, genDown, hand, asking, stalls, asks>>
+
+\* the reader of the redirecting client is on its way to a client of this address for a redirected request
+ReaderBusy == \E r \in Reqs : asking[r] /\ rq[r] \in {"lookup", "waitcall", "dial", "dialing"}
+(* Stop of the old clients returns when their readers have finished what they were doing *)
+ResetDone ==
+  /\ rst = "stopping" /\ ~ReaderBusy
+  /\ rst' = "idle" /\ mu' = "free"
+  /\ UNCHANGED <<table, call, gens, callRes, alive, exited, created, up, rq, rqc, outcome, sawDown, next, snap, genDown, faults, pvars>>
 
 ProxyNext == (\E r \in Reqs : Lookup(r) \/ WaitCall(r) \/ DialStart(r) \/ Dial(r) \/ SendAndReply(r) \/ WriterTake(r) \/ HandOver(r) \/ HandQuit(r))
                \/ (\E c \in Clients : RemoveSelf(c))
 EnvNext == (\E r \in Reqs : Issue(r)) \/ (\E c \in Clients : ConnLost(c) \/ Stall(c) \/ Unstall(c)) \/ BackendDown \/ BackendUp \/ ResetSnapshot
-ResetNext == ResetSwap
+ResetNext == ResetSwap \/ ResetDone
 Next == ProxyNext \/ EnvNext \/ ResetNext
 Spec == Init /\ [][Next]_vars /\ WF_vars(ProxyNext) /\ WF_vars(ResetNext)
 
@@ -265,6 +287,13 @@ NoOrphanClient == Quiet => \A c \in Clients : alive[c] => table = c
 NoStaleCall == Quiet => (call # 0 => (callRes[call] \notin {Pending, NoClient} /\ alive[callRes[call]]))
 \* a lost connection always ends its client: no writer stays behind at a hand-over (the dead client would keep the address for ever)
 NoWedgedClient == \A c \in Clients : ~wedged[c]
+\* resetAllClients never waits for a reader that waits for the lock resetAllClients holds (OnHostReplace would never return,
+\* no backend connection could be created or removed any more)
+NoStuckReset == ~(rst = "stopping" /\ \E r \in Reqs : asking[r] /\ rq[r] \in {"dial", "dialing"})
+\* window (must be reachable): all clients are reset while the reader of a redirecting client is about to create the client
+\* of this address
+W_ResetDuringRedirectDial == rst = "idle" /\ table = NoClient /\ \E r \in Reqs : asking[r] /\ rq[r] \in {"dial", "dialing"} /\ sawDown[r]
+NoResetDuringRedirectDial == ~W_ResetDuringRedirectDial
 \* window: the connection is alive, its in-flight queue is full and the writer waits with a request in hand (must be reachable)
 W_HandoverCmd == \E c \in Clients : alive[c] /\ hand[c] # 0 /\ ~asking[hand[c]]
 W_HandoverAsk == \E c \in Clients : alive[c] /\ hand[c] # 0 /\ asking[hand[c]]
